@@ -590,3 +590,46 @@ func (e *Evaluator) Eval(m *gen.Metric, p Params) (Result, error) {
 	}
 	return res, nil
 }
+
+// WindowStats reports, for a range node over the grid, the largest number of points one series
+// has in a window and whether some point lies exactly on a window edge.
+func (e *Evaluator) WindowStats(m *gen.Metric, steps []int64) (maxPts int, edgeHit bool, total int, err error) {
+	all, err := e.samples(m)
+	if err != nil {
+		return 0, false, 0, err
+	}
+	for _, t := range steps {
+		from, to := RangeWindow(m, t)
+		cnt := map[string]int{}
+		for _, s := range all {
+			if s.ts < from || s.ts > to {
+				continue
+			}
+			total++
+			cnt[s.key]++
+			if cnt[s.key] > maxPts {
+				maxPts = cnt[s.key]
+			}
+			if s.ts == from || s.ts == to {
+				edgeHit = true
+			}
+		}
+	}
+	return maxPts, edgeHit, total, nil
+}
+
+// Ranges returns the range nodes of an expression.
+func Ranges(m *gen.Metric) []*gen.Metric {
+	if m == nil {
+		return nil
+	}
+	switch m.Kind {
+	case "range":
+		return []*gen.Metric{m}
+	case "vecagg", "label_replace":
+		return Ranges(m.Inner)
+	case "binop":
+		return append(Ranges(m.L), Ranges(m.R)...)
+	}
+	return nil
+}
